@@ -28,12 +28,14 @@ func init() {
 			"(order) no function of the closure iterates a map with an order-sensitive effect, and in Generate a total-order sort of the backend-name slice dominates every store into the returned table and every lookup into the backend map is keyed by an element of that slice; " +
 			"(dedupe) a backend is inserted into the by-name map only when it is not already present, and the name is appended to the name slice on the same paths; " +
 			"(reset) every Write/Sum on a hash.Hash value is dominated by a Reset of that value (hash state cannot carry over from previously learned backends); " +
+			"(perm) each backend's preference list is a permutation of the slots: the table-size field m is stored only in the constructor literal, every value stored into a []int of length m lies in [0, m-1] and the factor of the list index (the Maglev skip) lies in [1, m-1] for every m >= 2 - interval evaluation with bounds affine in m, through the results of offsetAndSKip/hashFromString (error returns excluded where the use is guarded by err == nil); with m prime (next clause) skip is then coprime to m; " +
 			"(prime) Config.BPFLUTSizeMaglev returns the result of NextPrimeUint16, which returns only elements of the table `pr`, and `pr` is exactly the ascending list of all primes below 2^16 and is never written.",
-		NotDecided: "Balance (Maglev bound) and that the fill loop terminates with a full table (arithmetic over run-time values; needs M prime, which is decided only up to the config accessor); that the hash functions passed to New by the proxy are node-independent (fnv today); that the configured LUT size reaches New unchanged through the dataplane config plumbing; 32-bit int truncation of the uint32 hash.",
+		NotDecided: "Balance (Maglev bound) and that the fill loop of Generate itself terminates with a full table given permutations (run-time indices into slices; needs M prime, which is decided only up to the config accessor); that the hash functions passed to New by the proxy are node-independent (fnv today); that the configured LUT size reaches New unchanged through the dataplane config plumbing; 32-bit int truncation of the uint32 hash.",
 		Assumptions: []string{
 			"go/types + go/ssa (x/tools v0.50.0) model of the current source, CGO_ENABLED=0 build",
 			"hash.Hash implementations are pure functions of the bytes written since Reset",
 			"slices.Sort / sort.Strings on []string is a total order",
+			"int is 64 bits (uint32 -> int conversion is value-preserving, index arithmetic on operands below 2^32 does not overflow); table size m >= 2",
 		},
 		Run: runC33,
 		Fixtures: []Fixture{
@@ -47,6 +49,14 @@ func init() {
 				Old: "\tif _, exists := ch.backendsByName[name]; exists {\n\t\tlogrus.WithField(\"backend\", name).Info(\"Will not regenerate permutation for pre-existing backend\")\n\t\treturn\n\t}\n", New: "", Expect: "C33.dedupe/ConsistentHash.AddBackend/guard"},
 			{Name: "backend stored but its name not recorded", File: c33File,
 				Old: "\tch.backendNames = append(ch.backendNames, name)\n", New: "", Expect: "C33.dedupe/ConsistentHash.AddBackend/paired"},
+			{Name: "skip taken modulo m: can be 0 mod m", File: c33File,
+				Old: "(skip % (ch.m - 1)) + 1", New: "(skip % ch.m) + 1", Expect: "C33.perm/ConsistentHash.permutation/skip"},
+			{Name: "skip can be zero", File: c33File,
+				Old: "(skip % (ch.m - 1)) + 1", New: "skip % (ch.m - 1)", Expect: "C33.perm/ConsistentHash.permutation/skip"},
+			{Name: "preference can be the slot one past the table", File: c33File,
+				Old: "permutation[j] = (offset + (j * skip)) % ch.m", New: "permutation[j] = (offset + (j * skip)) % (ch.m + 1)", Expect: "C33.perm/ConsistentHash.permutation/slot"},
+			{Name: "table size changed after backends were added", File: c33File,
+				Old: "\tslices.Sort(ch.backendNames)\n", New: "\tslices.Sort(ch.backendNames)\n\tif len(ch.backendNames) > ch.m {\n\t\tch.m = len(ch.backendNames)\n\t}\n", Expect: "C33.perm/size-immutable"},
 			{Name: "hash state carried over between backends", File: c33File,
 				Old: "\th.Reset()\n", New: "", Expect: "C33.reset/"},
 			{Name: "LUT size no longer rounded to a prime", File: "felix/config/config_params.go",
@@ -91,6 +101,8 @@ func runC33(c *Ctx) {
 			fnName(f)+": "+tm)
 	}
 
+	c.Rule("C33.perm", "E-RANGE", "every backend's preference list is a permutation of the table slots: the size field is immutable, each stored slot lies in [0, m-1] and the per-index step (skip) lies in [1, m-1] (symbolic interval evaluation, m >= 2)", 3)
+	c33Perm(c, p, cl)
 	c33Order(c, p)
 	c33Dedupe(c, p)
 	c33Reset(c, p, cl)
@@ -238,6 +250,163 @@ func c33Order(c *Ctx, p *Prog) {
 		c.Violate(key, site, "Generate never looks a backend up by name in %s (the table is not filled from the sorted names)", byName.Name())
 	} else {
 		c.Check(bad == "", key, site, fmt.Sprintf("%d lookup(s) into %s keyed by elements of %s", n, byName.Name(), names.Name()), bad)
+	}
+}
+
+// c33Perm: Generate fills the table by walking each backend's preference list;
+// it is complete only if every list visits every slot, i.e. list[j] =
+// (offset + j*skip) mod m with skip not a multiple of the (prime) size m.  Decided
+// by interval evaluation with bounds affine in m: the values stored into the
+// list are in [0, m-1] (valid slots) and the factor of the element index is in
+// [1, m-1].  The list is found structurally: a []int made with length m whose
+// elements are stored to.
+func c33Perm(c *Ctx, p *Prog, cl map[*ssa.Function]bool) {
+	tn, _ := p.LookupObj(c33Pkg, "ConsistentHash").(*types.TypeName)
+	if tn == nil {
+		c.Lost("type ConsistentHash")
+	}
+	st, _ := tn.Type().Underlying().(*types.Struct)
+	if st == nil {
+		c.Lost("ConsistentHash is not a struct")
+	}
+	var m *types.Var
+	for i := 0; i < st.NumFields(); i++ {
+		if b, ok := st.Field(i).Type().(*types.Basic); ok && b.Kind() == types.Int {
+			if m != nil {
+				c.Lost("ConsistentHash has more than one int field (table size not identifiable)")
+			}
+			m = st.Field(i)
+		}
+	}
+	if m == nil {
+		c.Lost("ConsistentHash table-size field (int)")
+	}
+	sp := p.SSAPkg(c33Pkg)
+	if sp == nil {
+		c.Lost("ssa package %s", c33Pkg)
+	}
+	isM := func(v ssa.Value) bool {
+		ld, ok := v.(*ssa.UnOp)
+		return ok && ld.Op == token.MUL && fieldVar(ld.X) == m
+	}
+	// the size is fixed at construction
+	bad := ""
+	var fns []*ssa.Function
+	for _, f := range p.AllFuncs() {
+		if f.Pkg == sp {
+			fns = append(fns, f)
+		}
+	}
+	c33SortFuncs(fns)
+	for _, f := range fns {
+		allInstrs(f, false, func(g *ssa.Function, in ssa.Instruction) {
+			s, ok := in.(*ssa.Store)
+			if !ok || fieldVar(s.Addr) != m {
+				return
+			}
+			if fa, ok := s.Addr.(*ssa.FieldAddr); ok {
+				if _, lit := fa.X.(*ssa.Alloc); lit {
+					return
+				}
+			}
+			bad = fmt.Sprintf("%s stores to %s at %s: preference lists computed for the old size are walked against the new one", fnName(g), m.Name(), p.Pos(in.Pos()))
+		})
+	}
+	c.Check(bad == "", "C33.perm/size-immutable", p.Pos(m.Pos()), "table size is only set in the constructor literal", bad)
+
+	ev := &symEval{M: m, MinM: 2}
+	slotRange := symRange{symConst(0), symBound{A: 1, B: -1}}
+	skipRange := symRange{symConst(1), symBound{A: 1, B: -1}}
+	found := 0
+	for _, f := range fns {
+		if !cl[f] {
+			continue
+		}
+		allInstrs(f, false, func(g *ssa.Function, in ssa.Instruction) {
+			ms, ok := in.(*ssa.MakeSlice)
+			if !ok || !isM(ms.Len) {
+				return
+			}
+			sl, _ := ms.Type().Underlying().(*types.Slice)
+			if sl == nil {
+				return
+			}
+			if b, ok := sl.Elem().Underlying().(*types.Basic); !ok || b.Kind() != types.Int {
+				return
+			}
+			refs := ms.Referrers()
+			if refs == nil {
+				return
+			}
+			for _, r := range *refs {
+				ia, ok := r.(*ssa.IndexAddr)
+				if !ok || ia.Referrers() == nil {
+					continue
+				}
+				for _, rr := range *ia.Referrers() {
+					sto, ok := rr.(*ssa.Store)
+					if !ok || sto.Addr != ssa.Value(ia) {
+						continue
+					}
+					found++
+					site := p.Pos(sto.Pos())
+					name := fnName(g)
+					// slot
+					r := ev.Range(sto.Val, sto)
+					c.Check(ev.within(r, slotRange), "C33.perm/"+name+"/slot", site,
+						"stored preference is in [0, m-1]",
+						fmt.Sprintf("the preference stored at %s ranges over %s, not within [0, m-1]: Generate indexes the m-slot table with it", site, r))
+					// skip: the factor of the element index
+					var muls []*ssa.BinOp
+					seen := map[ssa.Value]bool{}
+					var walk func(v ssa.Value)
+					walk = func(v ssa.Value) {
+						if seen[v] {
+							return
+						}
+						seen[v] = true
+						bo, ok := v.(*ssa.BinOp)
+						if !ok {
+							return
+						}
+						switch bo.Op {
+						case token.MUL:
+							if bo.X == ia.Index || bo.Y == ia.Index {
+								muls = append(muls, bo)
+							}
+						case token.ADD, token.SUB:
+							walk(bo.X)
+							walk(bo.Y)
+						case token.REM:
+							walk(bo.X)
+						}
+					}
+					walk(sto.Val)
+					key := "C33.perm/" + name + "/skip"
+					if len(muls) != 1 {
+						c.Undecided(key, site, "preference %s is not of the form (offset + index*skip) %% m (%d products with the element index)", path(sto.Val), len(muls))
+						continue
+					}
+					skip := muls[0].X
+					if skip == ia.Index {
+						skip = muls[0].Y
+					}
+					sr := ev.Range(skip, muls[0])
+					why := ""
+					switch {
+					case !ev.loGE(sr, skipRange.Lo):
+						why = "skip can be 0 (or negative): every preference of the backend is the same slot"
+					case !ev.hiLE(sr, skipRange.Hi):
+						why = "skip can reach m, i.e. 0 modulo the table size: the backend's list is one slot repeated m times"
+					}
+					c.Check(why == "", key, site, "skip is in [1, m-1]: with m prime the list visits every slot once",
+						fmt.Sprintf("the step %s multiplied with the list index in %s ranges over %s, not within [1, m-1]; %s and Generate cannot complete the table", path(skip), name, sr, why))
+				}
+			}
+		})
+	}
+	if found == 0 {
+		c.Lost("no []int of length %s with element stores (the preference list) in the closure of AddBackend/Generate", m.Name())
 	}
 }
 
